@@ -126,7 +126,7 @@ Definition content_matches ue tab (ps : list period_t) rs : bool :=
   && forallb (fun x => period_matches ue tab (fst x) (snd x)) (combine ps rs).
 
 Definition uniform (ps : list period_t) : bool :=
-  match ps with [] => false | p0 :: t => forallb (same_layout p0) t end.
+  match ps with [] => false | p0 :: t => forallb (same_layout p0) t && forallb (same_keys p0) t end.
 
 Definition checkF_file (c : file_case) : bool :=
   (* harness consistency: Python reference encoder = Coq encoder, decoder inverts it,
@@ -173,8 +173,7 @@ Definition region_file (c : file_case) : nat :=
   match fc_ps c with
   | [] => 9%nat
   | p0 :: _ =>
-      if negb (lib_room p0) then 3%nat
-      else if negb (lib_grid_ok p0) then 5%nat
+      if negb (lib_grid_ok p0 && lvl_texts_ok p0) then 5%nat
       else if negb (keys_disjoint p0) then 6%nat
       else 0%nat
   end.
